@@ -272,6 +272,7 @@ def run(rep: Report, tier: str) -> None:
     # ---- R11.5b: the generic validation methods reach a promotion function on every path ----------------
     funnel(P, rep)
     call_scoped_class_state(P, rep)
+    own_compatibility_symmetric(P, rep, list(types), rev)
     # ---- R11.6 purity -----------------------------------------------------------------------------------
     purity(P, rep)
 
@@ -373,6 +374,42 @@ def funnel(P: Program, rep: Report) -> None:
     for q in FUNNEL_EXEMPT:
         if q not in P.functions:
             rep.note(f"R11.5 exemption no longer needed (function gone): {q}")
+
+
+def own_compatibility_symmetric(P: Program, rep: Report, types: List[ClassVal], rev: Dict[ClassVal, str]) -> None:
+    """R11.8  An operator class that decides type compatibility of two operands with code of its own (an override of
+    validate_type_compatibility(left, right) outside the generic Binary) is evaluated over all 9x9 type pairs: "the operands have a
+    common type the operator admits" is symmetric in the operands, so acceptance must not depend on their order."""
+    from sa.e6 import Interp, Raised, Unmodelled
+    rep.rule("R11.8", "operator-specific validate_type_compatibility(left, right) overrides accept a type pair iff they accept the swapped pair (9x9, evaluated)")
+    n = 0
+    for c in sorted(P.classes.values(), key=lambda k: k.qualname):
+        if not c.qualname.startswith("vtlengine.Operators.") or c.qualname == "vtlengine.Operators.Binary":
+            continue
+        f = c.methods.get("validate_type_compatibility")
+        if f is None:
+            continue
+        params = [a.arg for a in f.node.args.args if a.arg not in ("cls", "self")]
+        if len(params) != 2 or f.node.args.vararg is not None:
+            continue
+        table: Dict[Tuple[ClassVal, ClassVal], Any] = {}
+        for a in types:
+            for b in types:
+                try:
+                    table[(a, b)] = bool(Interp(P).call(f, {params[0]: a, params[1]: b}, bound_cls=ClassVal(c.qualname)))
+                except Raised:
+                    table[(a, b)] = "raises"
+                except Unmodelled as e:
+                    raise AnalysisError(f"R11.8: {f.qualname} outside the evaluator's language: {e}")
+        n += 1
+        asym = [(a, b) for (a, b), v in table.items() if v != table[(b, a)]]
+        rep.instance("R11.8", f"symmetric/{f.qualname}", nontrivial=True, sample={"method": f.qualname, "accepted pairs": sum(1 for v in table.values() if v is True)})
+        if asym:
+            a, b = asym[0]
+            rep.add(Finding("R11.8", f"R11.8/symmetric/{f.qualname}", f.module.rel, f.node.lineno, f.qualname,
+                            f"{f.qualname}({rev[a]}, {rev[b]}) is {table[(a, b)]} but ({rev[b]}, {rev[a]}) is {table[(b, a)]} ({len(asym) // 2} pair(s)): whether the operator accepts two "
+                            f"operand types depends on the order they are written in, although having a common admitted type does not"))
+    rep.floor("R11.8 own compatibility functions", n, 1)
 
 
 def call_scoped_class_state(P: Program, rep: Report) -> None:
